@@ -106,11 +106,22 @@ def check_security(res, r, sname, so, st):
             if gen_rows:
                 return "row %d: automatic adjustments generated although the superficial loss was supplied" % i, i
             continue
-        if superficial != (d["sfl"] is not None):
-            return "row %d (settles %s): rule says %s (acquired %s, held at end of window %s) but reported %s" % (
-                i, core.date_str(d["sd"]), "superficial" if superficial else "not superficial", acquired, held,
+        # the effective-cent rule (C02_denied_amount since the fix of C05 eff-cent-zero): a denied amount
+        # that rounds to zero effective cents is no superficial loss - nothing denied, no adjustment rows.
+        # The implementation rounds the product before it looks at the 1e-10 tolerance: a product within
+        # 1e-20 of the tolerance may fall on either side (rust_decimal keeps 28 digits)
+        expect_sfl = superficial and computed != 0
+        near = superficial and abs(abs(loss * ratio) - Fraction(1, 10 ** 10)) <= Fraction(1, 10 ** 20)
+        if expect_sfl != (d["sfl"] is not None) and not near:
+            return "row %d (settles %s): rule says %s (acquired %s, held at end of window %s, denied amount %s) but reported %s" % (
+                i, core.date_str(d["sd"]), "superficial" if expect_sfl else "not superficial" if not superficial
+                else "superficial with a denied amount that rounds to zero effective cents", acquired, held, computed,
                 "superficial %s" % denied if d["sfl"] else "not superficial"), i
-        if superficial:
+        if d["sfl"] is None and gen_rows:
+            return "row %d: automatic adjustments generated although no superficial loss is reported" % i, i
+        if superficial and d["sfl"] is None:
+            st["superficial-rounds-to-zero"] += 1
+        if superficial and d["sfl"] is not None:
             st["superficial"] += 1
             if abs(denied - computed) > TOL:
                 return "row %d: denied amount %s, rule gives loss %s x min(%s, %s, %s)/%s = %s" % (
@@ -191,7 +202,13 @@ def dec_scan_pass(res, rs, st, bad):
                     st["dec_scan_compared_superficial"] += 1
                     num = min(sold, acq, eop)
                     if d["sfl"] is None:
-                        what = "the exact scan finds acquired %s, held %s (superficial), reported not superficial" % (acq, eop)
+                        # since the fix of C05 eff-cent-zero a superficial scan whose denied amount rounds to zero
+                        # effective cents reports no superficial loss (the theorem is about the scan, not the amount)
+                        x = d["gain"] * num / sold
+                        if round2(x) == 0 and abs(x) < Fraction(1, 10 ** 10) + Fraction(1, 10 ** 20):
+                            st["dec_scan_superficial_rounds_to_zero"] += 1
+                        else:
+                            what = "the exact scan finds acquired %s, held %s (superficial, denied amount %s), reported not superficial" % (acq, eop, x)
                     elif d["sfl"][1] != num or d["sfl"][2] != sold:
                         what = "ratio reported %s/%s, the exact scan gives min(%s, %s, %s)/%s" % (d["sfl"][1], d["sfl"][2], sold, acq, eop, sold)
                 else:
@@ -201,6 +218,26 @@ def dec_scan_pass(res, rs, st, bad):
                                   "security %s row %d: rounding changed the superficial-loss scan of a sale whose window has "
                                   "no split and only ten-place share counts: %s" % (corecheck.sec_name(r, s), n, what),
                                   {"input": r["hc"], "row": n, "theorem": "C02_dec_scan_exact_without_splits"})
+
+
+def tiny_cases():
+    """hand-written: denied amounts around the effective-cent tolerance of 1e-10 (C02_denied_amount, None case
+    since the fix of C05 eff-cent-zero: a denied amount that rounds to zero effective cents is no superficial
+    loss; C02_rounds_to_zero_nonvacuous is the first one)"""
+    b = core.BASE_DAY + 40
+    def _r(day, act, sh, aps, af=None):
+        return {"sec": "FOO", "td": b + day, "sd": b + day, "act": act, "sh": sh, "aps": aps,
+                "com": None, "cur": None, "rate": None, "af": af}
+    out = [[_r(0, "Buy", core.D(2), core.D(10000000001, 10)), _r(10, "Sell", core.D(5, 1), core.D(1))]]
+    for dust, af in ((core.D(1, 10), None), (core.D(3, 10), None), (core.D(19, 11), None), (core.D(2, 10), None),
+                     (core.D(21, 11), None), (core.D(1, 10), "Spouse"), (core.D(5, 10), "Spouse")):
+        # loss of 0.50 on one share; [dust] shares bought five days later: denied 0.5 x dust
+        out.append([_r(0, "Buy", core.D(10), core.D(10)), _r(100, "Sell", core.D(1), core.D(95, 1)),
+                    _r(105, "Buy", dust, core.D(10), af)])
+        # ... or five days before
+        out.append([_r(0, "Buy", core.D(10), core.D(10)), _r(95, "Buy", dust, core.D(10), af),
+                    _r(100, "Sell", core.D(1), core.D(95, 1))])
+    return [{"rows": rows, "inits": {}} for rows in out]
 
 
 def run(res, ctx):
@@ -219,6 +256,10 @@ def run(res, ctx):
                                    p_split=0.1, p_roc=0.03, window_focus=(k < 0.85),
                                    terminating_only=(rng.random() < 0.6))
             cases.append({"rows": rows, "inits": {}})
+        if done == 0:
+            tc = tiny_cases()
+            st["tiny-denied-amount-cases"] += len(tc)
+            cases += tc
         done += len(cases)
         rs = corecheck.run_cases(ctx, cases, want_exact=True, render=True)
         dec_scan_pass(res, rs, st, probe_bad)
